@@ -4,7 +4,7 @@ known_findings.txt lines:
     finding: property=<id> key=<key> :: <what fails>
     fixed: property=<id> <commit> <what failed>
 findings/<key>.json: {"property", "key", "what", "case", "expect": {"kind", "detail"}, "predicate"}
-  expect.detail is a regular expression matched (fullmatch) against a violation's detail string;
+  expect.kind and expect.detail are regular expressions matched (fullmatch) against a violation's kind / detail;
   predicate names a pure function over generated cases (registered by the property module).
 A violation is tolerated only if kind, detail and predicate all match an open finding of that property.
 Nothing in this module ever writes to the committed files.
@@ -59,7 +59,7 @@ def open_for(prop):
 
 def matches(f, kind, detail, case):
     exp = f.get("expect", {})
-    if exp.get("kind") is not None and exp["kind"] != kind:
+    if exp.get("kind") is not None and not re.fullmatch(exp["kind"], kind or ""):
         return False
     if exp.get("detail") is not None and not re.fullmatch(exp["detail"], detail or "", re.S):
         return False
